@@ -83,6 +83,12 @@ func runC13(c *Ctx) {
 			ac.Limits.JetStreamTieredLimits = jwt.JetStreamTieredLimits{}
 			ex := &jwt.Export{Subject: "ex.>", Type: jwt.Stream}
 			ac.Exports.Add(ex)
+			// list entries that the subject ordering of Encode cannot tell apart (same subject, other kind), in one
+			// fixed order: encoding one object repeatedly must not shuffle them
+			ac.Exports.Add(&jwt.Export{Subject: "same.subject", Type: jwt.Stream}, &jwt.Export{Subject: "same.subject", Type: jwt.Service},
+				&jwt.Export{Name: "third", Subject: "same.subject", Type: jwt.Service, ResponseType: jwt.ResponseTypeStream})
+			ac.Imports.Add(&jwt.Import{Subject: "same.import", Account: acctKp.pub, Type: jwt.Stream, LocalSubject: "l1"},
+				&jwt.Import{Subject: "same.import", Account: acctKp.pub, Type: jwt.Service, LocalSubject: "l2"})
 			for _, i := range permute(c.Rng, len(sks)) {
 				if sks[i].scope != nil {
 					cp := *sks[i].scope
